@@ -43,4 +43,4 @@ cp $SRC/*.h $OUT/ 2>/dev/null
   echo "}"
 } > $OUT/meta.json
 python3 -c "import json;json.load(open('$OUT/meta.json'))" && echo "filed under $OUT"
-rm -f /tmp/sv-*.$$
+rm -f /tmp/sv-demo-clean.$$ /tmp/sv-demo-mut.$$ /tmp/sv-build.$$
